@@ -33,6 +33,7 @@ PROP = {
         "DataMessageCodec.UnmarshalBinary (zero-value codec and a codec wrapping a message) is a fifth decode entry point on every decode case: same acceptance and same message as DecodeHSMSMessage (the model's whole-buffer decode), except that a frame decoding to a control message is refused (class C) and a failed call leaves the wrapped message in place",
         "a control frame with a body is well-formed at the decode entry points (property text lists only length, PType, SType); rejecting it is the live responder's job (C08)",
         "local frame writes are not part of the reader model (the model is indifferent to them, like read sizes): scripts carry them as a conn behaviour, and the e2e stall scenarios (with / without local writes) assert the drop no earlier than T8 after the partial frame began and within T8 + 2 s",
+        "real-time e2e outcomes are load-sensitive (a descheduled writer stretches an in-frame gap; a loaded machine closes the socket seconds after the state change): a failing scenario is re-run once with every duration scaled by 4 (T8 = 800 ms) and reported only if it fails again (first failure quoted; unconfirmed ones are listed in the evidence notes); the drop is observed as an event (peer read loop ending) with a 10 s ceiling; a drop EARLIER than T8 bypasses the re-run and is reported at once; local writes are issued as soon as the partial frame is in, and a stall scenario whose writes did not land inside the gap is counted void, not failed",
         "the e2e pass judges real-time behaviour with wide margins only (idle 2.5 x T8 must not drop; stall 4 x T8 must drop; in-frame gaps are 100x below T8)",
     ],
 }
